@@ -33,10 +33,11 @@ const (
 	lkListener              // listener with AsyncAccept
 	lkPacket                // packet conn
 	lkPeer                  // multicast UDP peer
+	lkConnUDP               // sonic.Dial("udp"): a conn over a connected datagram socket
 	lkNumKinds
 )
 
-var lKindNames = [...]string{"conn-dialed", "conn-accepted", "adapter", "fifo-read", "fifo-write", "regular-file", "listener", "packet", "mcast-peer"}
+var lKindNames = [...]string{"conn-dialed", "conn-accepted", "adapter", "fifo-read", "fifo-write", "regular-file", "listener", "packet", "mcast-peer", "conn-udp"}
 
 func (k lKind) String() string { return lKindNames[k] }
 func (k lKind) stream() bool   { return k == lkConnDial || k == lkConnAcc || k == lkAdapter }
@@ -87,6 +88,7 @@ type lObj struct {
 	pc                           sonic.PacketConn
 	peer                         *multicast.UDPPeer
 	rawFd                        int
+	peerFd, localPort            int // conn-udp: the harness's socket at the remote address (-1 once closed), the conn's own port
 	gen                          int
 	closed                       bool // Close has returned
 	rd, wr                       *lOp
@@ -130,16 +132,17 @@ type loop struct {
 }
 
 var (
-	lpInline      = sim.RegStat("probe:loop-op-completed-inline")
-	lpDeferred    = sim.RegStat("probe:loop-op-deferred")
-	lpAtLimit     = sim.RegStat("probe:loop-op-started-at-dispatch-limit")
-	lpCancelled   = sim.RegStat("probe:loop-op-cancelled")
-	lpCrossClose  = sim.RegStat("probe:loop-handler-closed-other-object")
-	lpDataWithEOF = sim.RegStat("probe:loop-adapter-reader-returns-last-bytes-with-eof")
-	lpCrossCancel = sim.RegStat("probe:loop-handler-cancelled-other-object")
-	lpBoth        = sim.RegStat("probe:loop-read-and-write-in-flight-together")
-	lpErrDone     = sim.RegStat("probe:loop-op-completed-with-error")
-	lpAllMulti    = sim.RegStat("probe:loop-*All-needed-several-wakeups")
+	lpInline        = sim.RegStat("probe:loop-op-completed-inline")
+	lpDeferred      = sim.RegStat("probe:loop-op-deferred")
+	lpAtLimit       = sim.RegStat("probe:loop-op-started-at-dispatch-limit")
+	lpCancelled     = sim.RegStat("probe:loop-op-cancelled")
+	lpCrossClose    = sim.RegStat("probe:loop-handler-closed-other-object")
+	lpUDPPortClosed = sim.RegStat("probe:loop-udp-conn-remote-port-closed")
+	lpDataWithEOF   = sim.RegStat("probe:loop-adapter-reader-returns-last-bytes-with-eof")
+	lpCrossCancel   = sim.RegStat("probe:loop-handler-cancelled-other-object")
+	lpBoth          = sim.RegStat("probe:loop-read-and-write-in-flight-together")
+	lpErrDone       = sim.RegStat("probe:loop-op-completed-with-error")
+	lpAllMulti      = sim.RegStat("probe:loop-*All-needed-several-wakeups")
 )
 
 // dataWithEOF wraps the adapted conn the way tls.Conn behaves: when the end of the stream is already
@@ -301,6 +304,26 @@ func (s *loop) addObj(k lKind) *lObj {
 		}
 		o.lis = ln
 		o.rawFd = ln.RawFd()
+	case lkConnUDP:
+		// the remote endpoint is a socket of the harness bound to the port the conn is connected to; when the
+		// harness closes it, datagrams sonic sends are answered with ICMP port unreachable and the conn learns of
+		// that as an asynchronous socket error (EPOLLERR alone)
+		pfd, e := w.K.Socket(syscall.AF_INET, syscall.SOCK_DGRAM|syscall.SOCK_NONBLOCK, 0)
+		if e != 0 {
+			sim.Bug("peer socket: %v", e)
+		}
+		if e := w.K.Bind(pfd, loopIP, o.port); e != 0 {
+			sim.Bug("peer bind: %v", e)
+		}
+		o.peerFd = pfd
+		conn, err := sonic.Dial(s.ioc, "udp", fmt.Sprintf("127.0.0.1:%d", o.port))
+		if err != nil {
+			sim.Bug("Dial udp: %v", err)
+		}
+		o.fd = conn
+		o.rawFd = conn.RawFd()
+		_, lport, _ := w.K.Getsockname(o.rawFd)
+		o.localPort = lport
 	case lkPacket:
 		pc, err := sonic.NewPacketConn(s.ioc, "udp", fmt.Sprintf("127.0.0.1:%d", o.port))
 		if err != nil {
@@ -723,6 +746,29 @@ func (s *loop) peerSend(o *lObj, n int) {
 		b := make([]byte, n)
 		s.fill(b, s.inStream(o), o.peerSent)
 		o.peerSent += int64(o.fifo.ActorWrite(b))
+	case o.kind == lkConnUDP:
+		if o.closed {
+			return
+		}
+		if o.peerClosed {
+			if !s.quiesce {
+				return
+			}
+			// quiescence: the remote endpoint comes back, so that a pending read can be satisfied
+			pfd, e := s.w.K.Socket(syscall.AF_INET, syscall.SOCK_DGRAM|syscall.SOCK_NONBLOCK, 0)
+			if e != 0 || s.w.K.Bind(pfd, loopIP, o.port) != 0 {
+				sim.Bug("conn-udp: the remote endpoint cannot be re-opened")
+			}
+			o.peerFd, o.peerClosed = pfd, false
+		}
+		if n > 1400 {
+			n = 1400
+		}
+		b := make([]byte, n)
+		s.fill(b, s.inStream(o), o.peerSent)
+		if e := s.w.K.Sendto(o.peerFd, b, loopIP, o.localPort); e == 0 {
+			o.peerSent += int64(n)
+		}
 	}
 }
 
@@ -737,6 +783,19 @@ func (s *loop) peerDrain(o *lObj, max int) {
 			return
 		}
 		b = o.fifo.ActorRead(max)
+	case o.kind == lkConnUDP:
+		if o.peerClosed {
+			return
+		}
+		buf := make([]byte, 65536)
+		for {
+			n, _, _, e := s.w.K.Recvfrom(o.peerFd, buf)
+			if e != 0 {
+				break
+			}
+			o.peerGot += int64(n)
+		}
+		return
 	default:
 		return
 	}
@@ -774,6 +833,13 @@ func (s *loop) peerClose(o *lObj) {
 		if !o.peerClosed {
 			o.peerClosed = true
 			o.fifo.ActorCloseReader()
+		}
+	case o.kind == lkConnUDP:
+		if !o.peerClosed {
+			// the remote port closes: from now on what sonic sends comes back as a socket error
+			o.peerClosed = true
+			s.w.Stat(lpUDPPortClosed)
+			s.w.K.Close(o.peerFd)
 		}
 	}
 }
@@ -874,6 +940,19 @@ func (s *loop) settle() {
 				if o.kind == lkRegular {
 					break
 				}
+				if o.kind == lkConnUDP {
+					// datagrams: what a short buffer cut off is gone, so the byte accounting says nothing; a
+					// pending read is satisfied by a datagram whenever none is queued
+					if w.K.UDPQueued(o.rawFd) == 0 && w.PendingEvents() == 0 && !w.K.UDPErrorPending(o.rawFd) {
+						// (a pending socket error completes the read by itself)
+						n := len(op.buf)
+						if n < 1 {
+							n = 1
+						}
+						s.peerSend(o, n)
+					}
+					break
+				}
 				if o.peerSent-o.inOff < int64(len(op.buf)) {
 					s.peerSend(o, len(op.buf))
 				}
@@ -921,6 +1000,12 @@ func (s *loop) settle() {
 }
 
 func (s *loop) closeAll() {
+	for _, o := range s.objs {
+		if o.kind == lkConnUDP && !o.peerClosed {
+			o.peerClosed = true
+			s.w.K.Close(o.peerFd)
+		}
+	}
 	for _, o := range s.objs {
 		s.doClose(o)
 		if o.conn != nil && !o.conn.Closed() {
